@@ -3,6 +3,7 @@ package main
 import (
 	"fmt"
 	"math"
+	"os"
 
 	"verif/internal/ev"
 	"verif/internal/gen"
@@ -60,6 +61,18 @@ func runC01(c *ev.Ctx) {
 	c.Rule = refRule
 	c.Assumptions = refAssume
 	seed := uint64(c.Seed)
+	if c.Thorough() {
+		// tens of megabits through a 32-bit build of the library (products like 95*n leave a 32-bit int there)
+		done := make(chan struct{})
+		go func() {
+			defer close(done)
+			runBig386(c, big386Works(gen.Mix(seed, 386), []Spec{{T: "mono"}, {T: "monoBytes"}, {T: "blockAuto"}, {"block", 10000}, {"poker", 4}, {"poker", 8}, {"pokerBytes", 8}, {"overlap", 3}, {"overlap", 5}, {"apen", 2}, {"apen", 5}}, true))
+		}()
+		defer func() { <-done }()
+		if os.Getenv("VERIF_ONLY_BIG386") == "1" {
+			return
+		}
+	}
 	r := gen.NewRng(gen.Mix(seed, 101))
 	lens := append([]int{}, quickLens...)
 	lens = append(lens, seededLens(r, 20, 100, 33333)...)
@@ -239,6 +252,18 @@ func runC02(c *ev.Ctx) {
 	c.Rule = refRule + "; the longest-run class probabilities of the reference are recomputed exactly (big-integer DP) on every run"
 	c.Assumptions = refAssume
 	seed := uint64(c.Seed)
+	if c.Thorough() {
+		// tens of megabits through a 32-bit build of the library (products like 95*n leave a 32-bit int there)
+		done := make(chan struct{})
+		go func() {
+			defer close(done)
+			runBig386(c, big386Works(gen.Mix(seed, 386), []Spec{{T: "runs"}, {T: "runsDist"}, {"longest", 1}, {"longest", 0}, {"longestBytes", 1}}, true))
+		}()
+		defer func() { <-done }()
+		if os.Getenv("VERIF_ONLY_BIG386") == "1" {
+			return
+		}
+	}
 	r := gen.NewRng(gen.Mix(seed, 202))
 	all := func(n int) []Spec {
 		return []Spec{{T: "runs"}, {T: "runsDist"}, {"longest", 1}, {"longest", 0}, {"longestBytes", 1}, {"longestBytes", 0}}
@@ -319,6 +344,18 @@ func runC03(c *ev.Ctx) {
 	c.Rule = refRule
 	c.Assumptions = refAssume
 	seed := uint64(c.Seed)
+	if c.Thorough() {
+		// tens of megabits through a 32-bit build of the library (products like 95*n leave a 32-bit int there)
+		done := make(chan struct{})
+		go func() {
+			defer close(done)
+			runBig386(c, big386Works(gen.Mix(seed, 386), []Spec{{"cusum", 1}, {"cusum", 0}, {"binder", 3}, {"binder", 7}, {"autocorr", 1}, {"autocorr", 8}, {"autocorr", 16}}, true))
+		}()
+		defer func() { <-done }()
+		if os.Getenv("VERIF_ONLY_BIG386") == "1" {
+			return
+		}
+	}
 	r := gen.NewRng(gen.Mix(seed, 303))
 	all := func(n int) []Spec {
 		sp := []Spec{{"cusum", 1}, {"cusum", 0}}
@@ -426,6 +463,18 @@ func runC04(c *ev.Ctx) {
 	c.Rule = refRule + "; plus exhaustive single-block enumeration: every m-bit block for m = 2..M is one linear-complexity case (non-trivial by construction: each has its own L)"
 	c.Assumptions = refAssume
 	seed := uint64(c.Seed)
+	if c.Thorough() {
+		// tens of megabits through a 32-bit build of the library (products like 95*n leave a 32-bit int there)
+		done := make(chan struct{})
+		go func() {
+			defer close(done)
+			runBig386(c, big386Works(gen.Mix(seed, 386), []Spec{{T: "rank"}, {"lc", 500}, {T: "maurer"}}, true))
+		}()
+		defer func() { <-done }()
+		if os.Getenv("VERIF_ONLY_BIG386") == "1" {
+			return
+		}
+	}
 	r := gen.NewRng(gen.Mix(seed, 404))
 	var works []seqWork
 
@@ -646,6 +695,18 @@ func runC05(c *ev.Ctx) {
 	c.Rule = refRule + "; the reference spectrum comes from an independent FFT that is itself validated against direct summation on this run; a case in which a magnitude lies within 2e-12*sqrt(n) of the threshold is counted as ambiguous and accepted for either count"
 	c.Assumptions = refAssume
 	seed := uint64(c.Seed)
+	if c.Thorough() {
+		// tens of megabits through a 32-bit build of the library (products like 95*n leave a 32-bit int there)
+		done := make(chan struct{})
+		go func() {
+			defer close(done)
+			runBig386(c, big386Works(gen.Mix(seed, 386), []Spec{{T: "dft"}}, false))
+		}()
+		defer func() { <-done }()
+		if os.Getenv("VERIF_ONLY_BIG386") == "1" {
+			return
+		}
+	}
 	r := gen.NewRng(gen.Mix(seed, 505))
 	dft := func(n int) []Spec { return []Spec{{T: "dft"}} }
 	lens := []int{2, 3, 4, 5, 6, 7, 8, 9, 15, 16, 17, 100, 127, 128, 129, 255, 256, 257, 1000, 1023, 1024, 1025, 4095, 4096, 4097, 10000, 16384, 16385, 20000, 32768, 33333, 65536, 65537}
@@ -732,4 +793,14 @@ func validateOracleFFT(c *ev.Ctx, seed uint64) {
 	if worst > 1e-11 {
 		c.Inconclusive(fmt.Sprintf("reference FFT disagrees with direct summation (rel %.3g): reference not trusted", worst))
 	}
+}
+
+// big386Works: one 24-Mbit sequence (above 2^31/95 bits) and, for everything except the spectral test
+// (whose tables would not fit a 32-bit address space), one 45-Mbit sequence (above 2^31/50).
+func big386Works(seed uint64, specs []Spec, big bool) []seqWork {
+	w := []seqWork{{Seq: gen.Seq{Fam: "uniform", N: 24000000, Seed: gen.Mix(seed, 1)}, Specs: specs}}
+	if big {
+		w = append(w, seqWork{Seq: gen.Seq{Fam: "slight", N: 45000000, Seed: gen.Mix(seed, 2)}, Specs: specs})
+	}
+	return w
 }
